@@ -24,6 +24,28 @@ func main() {
 		cmdList(os.Args[2:])
 	case "replay":
 		cmdReplay(os.Args[2:])
+	case "pool":
+		repo := "/repo"
+		if len(os.Args) > 2 {
+			repo = os.Args[2]
+		}
+		env, err := loadEnv(repo)
+		if err != nil {
+			fmt.Fprintln(os.Stderr, err)
+			os.Exit(2)
+		}
+		u := runPoolDiscipline(env)
+		bad := 0
+		for _, o := range u.Obligs {
+			st := "ok  "
+			if o.Result != "unsat" {
+				st = "FAIL"
+				bad++
+			}
+			fmt.Printf("%s %s %s\n", st, o.Name, o.Pos)
+		}
+		fmt.Println("unsupported:", u.Unsupported)
+		fmt.Printf("%d obligations, %d violated\n", len(u.Obligs), bad)
 	case "kinds":
 		repo := "/repo"
 		if len(os.Args) > 2 {
